@@ -343,12 +343,23 @@ def checkEng (params lines : List String) : CaseResult := Id.run do
   for n in nodesAnswered do
     let answers := (ops.filter (·.1 == n)).map (·.2.1)
     let td := ((c.proc.node? n).map (·.retries)).getD 0
-    let (evs, retry') := tokenRun td retry answers
+    -- the token may come back to the node (self-loop): every visit consumes answers until it continues or ends
     let start := retry
-    retry := retry'
+    let mut remaining := answers
+    let mut modelReqs := 0
+    let mut visits := 0
+    for _ in List.range (answers.length + 1) do
+      if !remaining.isEmpty then
+        let (evs, retry') := tokenRun td retry remaining
+        retry := retry'
+        modelReqs := modelReqs + requests evs
+        remaining := remaining.drop (requests evs)
+        visits := visits + 1
     let implReqs := reqCount n
-    if requests evs != implReqs then
-      r := { r with diffs := s!"task {n}: token model requests it {requests evs} times for answers {repr answers}, impl {implReqs}" :: r.diffs }
+    if modelReqs != implReqs then
+      r := { r with diffs := s!"task {n}: token model requests it {modelReqs} times for answers {repr answers}, impl {implReqs}" :: r.diffs }
+    -- the retry bound below is per visit; histories in which the token revisits the node are judged by the models only
+    if visits > 1 then continue
     -- retry bound on the implementation's history: at most max(n) additional requests (n ≥ 0 everywhere)
     let ns := answers.filterMap (fun a => match a with
       | .err (.mode 1 k) => some k
